@@ -22,8 +22,8 @@ Instances are grouped by
 *generation* (`G`): a new generation starts when a record is created for a key that is not in the map
 (`SetKey`/`SyncKeys`/`AddKeyRef`); `ResetRoutine` creates a new record in the *same* generation (it
 carries `prevExitedCh` over). The field `r.exitedCh` of the code is `G.last` (the only record of a
-generation whose `exitedCh` is ever read again is the one in the map; `resetTail` is where the code
-loses it: open finding D18-keyed).
+generation whose `exitedCh` is ever read again is the one in the map; since the fix of D18-keyed
+`ResetRoutine` keeps it also when the new routine is nil).
 
 A constructor may return a nil `Routine` (`env nilnext k`: the harness' constructor will do so at
 its next call for `k`; `Rec.hasFn`).
@@ -319,19 +319,15 @@ def setContext (s : St) (c : Option Nat) (restart : Bool) : St :=
   if same && !restart then s
   else (keyList s).foldl (setCtxOne same restart) { s with ctx := c }
 
-/-- keyed.go:328-333: with a context, `v.start(k.ctx, prevExitedCh, false)` is relied upon to store the
-new exit channel in the new record; for a nil routine it returns at once and `v.exitedCh` stays nil:
-the exit channel of the replaced routine is forgotten (`s0` is the state before the call) -/
-def resetTail (s0 s2 : St) (k g : Nat) : St :=
-  if s0.ctx.isSome && s0.nilNext.contains k then modG s2 g fun y => { y with last := none } else s2
-
 /-- `resetRoutineLocked` without conditions (keyed.go:300-336) -/
 def resetKey (s : St) (k : Nat) : St × List (Nat × Nat) × Bool :=
   match s.key k with
   | none => (s, [], false)
   | some r =>
     let s1 := newRec (cancelOpt s r.gen r.cancelOf) k r.gen
-    (resetTail s (startKey s1 k false) k r.gen, [(k, s.ctors k + 1)], true)
+    -- keyed.go:328-337: `start` stores the new exit channel if it starts an instance; otherwise (no
+    -- context, or a nil routine) `v.exitedCh = prevExitedCh`: `G.last` is unchanged either way
+    (startKey s1 k false, [(k, s.ctors k + 1)], true)
 
 /-- `restartRoutineLocked` without conditions (keyed.go:370-404); returns (existed, reset) -/
 def restartKey (s : St) (k : Nat) : St × Bool × Bool :=
